@@ -129,6 +129,15 @@ def _case(rng, i, tier):
         for s in gen.all_strings(desc["V"], mat_n):
             if s not in xs:
                 xs.append(s)
+    if R == "Float" and rng.random() < 0.12 and desc["rules"]:
+        # weights of both signs: one rule replaced by three copies w, -w, w (same total): the partial sum of a chart entry is
+        # EXACTLY zero after the second copy and then receives a further contribution
+        k = rng.randrange(len(desc["rules"]))
+        w, h, b = desc["rules"][k]
+        if common.num(w) != 0:
+            neg = common.frac_str(-common.num(w))
+            desc = {**desc, "rules": desc["rules"][:k] + [[w, h, list(b)], [neg, h, list(b)], [w, h, list(b)]] + desc["rules"][k + 1:]}
+            shape += "+signed_triple"
     tt = None
     if rng.random() < 0.12:
         desc, (xs,), _ = gen.intify_terms(desc, xs, offset=rng.choice([0, 0, -len(desc["V"])]))
